@@ -33,6 +33,11 @@ theorem findings_exact_in_quiet_context (v : Tree → List Finding) (t : Tree) :
     simp only [plug] at hself ⊢
     simp only [visit, hself, visitList_append, visitList, hs.1.1, hs.1.2, ih, List.nil_append, List.append_nil]
 
+/-- an acceptable example (no findings of its own) stays unreported in every quiet context -/
+theorem acceptable_stays_unreported (v : Tree → List Finding) (t : Tree) (c : Ctx) (ht : visit v t = [])
+    (hq : ∀ p ∈ pathNodes c t, v p = []) (hs : quietSiblings v c = true) : visit v (plug c t) = [] := by
+  rw [findings_exact_in_quiet_context v t c hq hs, ht]
+
 /-- **Multiplicity**: `k` copies of an example report `k` times the example's findings -/
 theorem copies_report_k_times (v : Tree → List Finding) (t : Tree) (k : Nat) :
     visitList v (copies t k) = (List.replicate k (visit v t)).flatten := by
